@@ -1,14 +1,14 @@
 SPECIFICATION Spec
 CONSTANTS
-  SdsWriters = {"DFSD", "SD", "NC"}
+  SdsWriters = {"DFSD", "SD"}
   RasWriters = {}
   Shapes <- ShapesA
-  Types = {"i8", "u8", "i16", "u16", "i32", "u32", "f32", "f64", "c8", "uc8"}
+  Types = {"i16", "f32", "u8"}
   RasDims <- RDimsNone
-  ScaleSets <- ScalesNo
-  MaxObjs = 4
+  ScaleSets <- ScalesAll
+  MaxObjs = 6
   MaxOps = 4
-  Mix = TRUE
+  Mix = FALSE
   KeepHist = TRUE
 CONSTRAINT Bound
 ACTION_CONSTRAINT EmitAudited
